@@ -122,6 +122,8 @@ type Exec struct {
 	locOf     map[string]*Loc
 	rawSorts  map[string]Sort
 	dynTags   map[string]int
+	limitReaders map[string]limitReader
+	logFuncs  map[string]*ssa.Function
 	models    map[string]Model
 	inlineExt map[string]bool
 	usedContracts map[string]bool
